@@ -33,9 +33,14 @@ def dep_funcs(vc):
     def lin2(x, a, b):
         return a + b * x
 
+    def chain2(x, a, b, d_of_x):
+        # a dependence function that takes ANOTHER one as parameter (as alpha(beta) of the OMAE2020 V-Hs model)
+        return (a + b * x) / 1.5 ** (1.0 / d_of_x(x))
+
     B3 = [(0, None), (0, None), (None, None)]
     DF = vc.DependenceFunction
-    return dict(power3=lambda: DF(power3, B3), exp3=lambda: DF(exp3, B3), lin2=lambda: DF(lin2))
+    return dict(power3=lambda: DF(power3, B3), exp3=lambda: DF(exp3, B3), lin2=lambda: DF(lin2),
+                chain2=lambda inner: DF(chain2, [(0, None), (0, None)], d_of_x=inner))
 
 
 def _vrange(spec):
@@ -78,7 +83,10 @@ def build_model(vc, st):
             desc["intervals"] = slicer_of(vc, d["slicer"])
         if d.get("cond") is not None:
             desc["conditional_on"] = d["cond"]
-            desc["parameters"] = {p: D[f]() for p, f in d["deps"].items()}
+            # "chain:<q>": the function of this parameter takes the function of parameter q as its parameter; the
+            # dict keeps the declared order (a dependent may be declared, and hence fitted, BEFORE its conditioner)
+            plain = {p: D[f]() for p, f in d["deps"].items() if not f.startswith("chain:")}
+            desc["parameters"] = {p: (plain[p] if p in plain else D["chain2"](plain[f.split(":")[1]])) for p, f in d["deps"].items()}
         descs.append(desc)
     return vc.GlobalHierarchicalModel(descs)
 
@@ -92,6 +100,7 @@ def structures(rng):
     wb2 = dict(fam="weibull", kw={"f_gamma": 0}, deps={"alpha": "power3", "beta": "lin2"})
     ew2 = dict(fam="expweibull", kw={"f_delta": 3}, deps={"alpha": "power3", "beta": "lin2"})
     nrm = dict(fam="normal", deps={"mu": "lin2", "sigma": "lin2"})
+    ewc = dict(fam="expweibull", kw={"f_delta": 3}, deps={"alpha": "chain:beta", "beta": "lin2"})
     out = [
         dict(name="weibull|lognormal width0.5", units=["0.1", None],
              dims=[dict(fam="weibull", slicer=W("0.5", 30)), dict(ln, cond=0)], fitdesc=None),
@@ -122,6 +131,10 @@ def structures(rng):
         dict(name="expweibull(wlsq array weights)|expweibull(wlsq array weights) number9", units=["0.1", None],
              dims=[dict(fam="expweibull", kw={"f_delta": 2}, slicer=Nn(9, 25)), dict(ew2, cond=0)],
              fitdesc=[{"method": "wlsq", "weights": "@array"}, {"method": "wlsq", "weights": "@array"}]),
+        # chained dependence functions, the dependent declared before its conditioner (first fit and re-fit)
+        dict(name="weibull|expweibull(wlsq) alpha(beta) chained width0.5", units=["0.1", None],
+             dims=[dict(fam="weibull", slicer=W("0.5", 30)), dict(ewc, cond=0)],
+             fitdesc=[None, {"method": "wlsq", "weights": "quadratic"}]),
         dict(name="weibull|weibull|lognormal chain 3D", units=["0.5", "0.25", None],
              dims=[dict(fam="weibull", slicer=W("1", 25)), dict(wb2, cond=0, slicer=W("0.5", 25)), dict(ln, cond=1)],
              fitdesc=[None, {"method": "mle", "weights": None}, None]),
@@ -398,6 +411,18 @@ def dim_records(vc, case, rid0):
         rec["permdepdev"] = Qc(reldev(depp(cd1), depp(cd2)), 1e9, 0, 2 * 10**9)
         rec["refitdepdev"] = Qc(reldev(depp(cd1), depp(cd3)), 1e9, 0, 2 * 10**9)
         rec["refitestdev"] = Qc(reldev(est(cd1), est(cd3)), 1e9, 0, 2 * 10**9)
+        # the re-fitted dependence functions fit THIS fit's (reference, estimate) pairs as well as those of the fresh
+        # model do (squared error relative to sum(y^2), 1e-9 units; parameters may differ along flat valleys)
+        xs_ = np.asarray(cd1.conditioning_values, dtype=float)
+        fo, ro = [], []
+        for pn in cd1.conditional_parameters:
+            ys_ = np.asarray([p_[pn] for p_ in cd1.parameters_per_interval], dtype=float)
+            sc_ = max(float(np.sum(ys_ ** 2)), 1e-300)
+            with np.errstate(all="ignore"):
+                fo.append(Qc(float(np.sum((np.asarray(cd1.conditional_parameters[pn](xs_), dtype=float) - ys_) ** 2)) / sc_, 1e9, 0, 2 * 10**9))
+                v3 = float(np.sum((np.asarray(cd3.conditional_parameters[pn](xs_), dtype=float) - ys_) ** 2)) / sc_
+                ro.append(Qc(v3 if v3 == v3 else np.inf, 1e9, 0, 2 * 10**9))
+        rec.update(freshobj=fo, refitobj=ro)
         recs.append(rec)
         rid += 1
     fdl = []
